@@ -126,6 +126,8 @@ def _ntt_jobs(tag, extra_random=None, cfg='fast2', qcases=24000, tcases=600_000)
         J('h_ntt', cfg, 1, tcases, only=rnd, wt=16, args=['--level', '1'], tiers=['thorough'], tag='rnd'),
         # the same random tier on the AVX512 build of the library (conditional code paths of that build)
         J('h_ntt', 'fast5', qcases // 4, tcases // 4, only=rnd, wq=8, wt=16, args=['--level', '0'], tag='rnd5', class_prefix='avx512-build:'),
+        # ... and on a -DNDEBUG build (asserts compiled out: nothing may depend on the side effect of an assert)
+        J('h_ntt', 'ndbg2', qcases // 8, tcases // 8, only=rnd, wq=8, wt=16, args=['--level', '0'], tag='rndN', class_prefix='ndebug-build:'),
     ]
 
 
@@ -171,7 +173,8 @@ PROPS['C05'] = dict(
 )
 PROPS['C19'] = dict(
     title='Transform objects are reusable: results depend only on the call arguments',
-    jobs=[J('h_ntt', 'fast2', 24000, 1_200_000, only='c19.history', wq=16, wt=16)],
+    jobs=[J('h_ntt', 'fast2', 24000, 1_200_000, only='c19.history', wq=16, wt=16),
+          J('h_ntt', 'ndbg2', 3000, 150_000, only='c19.history', wq=8, wt=16, tag='hN', class_prefix='ndebug-build:')],
     rule='rapidcheck-generated call histories (1..8 calls of NTT/INTT/extendPol with sizes <= object domain 2^1..2^7, ncols 1..4, nphase/nblock from the edge sets, dst/buffer modes, '
          'interleaved transforms of a foreign object that change the global OpenMP team size) on ONE shared object, each history in a forked child. '
          'Oracle: the k-th output is bit-identical to the same call on a freshly constructed object and equal to the C03-C05 reference. '
@@ -187,8 +190,8 @@ HARNESSES['h_poseidon'] = dict(src='h_poseidon.cpp')
 
 PROPS['C06'] = dict(
     title='Poseidon permutation: scalar, AVX2, AVX512 agree with the spec on all states',
-    jobs=[J('h_poseidon', 'fast5', 1_800_000, 200_000_000, only='c06.perm,c06.backsolved,c06.partial', wq=12),
-          J('h_poseidon', 'fast2', 600_000, 50_000_000, only='c06.perm,c06.backsolved,c06.partial', wq=4, class_prefix='avx2-build:'),
+    jobs=[J('h_poseidon', 'fast5', 1_800_000, 60_000_000, only='c06.perm,c06.backsolved,c06.partial', wq=12),
+          J('h_poseidon', 'fast2', 600_000, 15_000_000, only='c06.perm,c06.backsolved,c06.partial', wq=4, class_prefix='avx2-build:'),
           J('h_poseidon', 'fast5', 1, 1, only='c06.kat', wq=1, wt=1, args=['--enumerate'], tag='kat'),
           J('h_poseidon', 'fast2', 1, 1, only='c06.kat', wq=1, wt=1, args=['--enumerate'], tag='kat', class_prefix='avx2-build:')],
     rule='rapidcheck-generated 12-element states (AVX512: pairs of states in the interleaved layout) from the boundary element classes, all-equal and one-hot states, and BACK-SOLVED states: '
@@ -230,8 +233,9 @@ PROPS['C08'] = dict(
     jobs=[J('h_poseidon', 'fast5', 1, 1, only='c08.enum', wq=16, wt=16, args=['--enumerate', '--level', '0'], tiers=['quick'], tag='enum'),
           J('h_poseidon', 'fast5', 1, 1, only='c08.enum', wq=16, wt=16, args=['--enumerate', '--level', '1'], tiers=['thorough'], tag='enum'),
           J('h_poseidon', 'fast2', 1, 1, only='c08.enum', wq=16, wt=16, args=['--enumerate', '--level', '0'], tag='enum', class_prefix='avx2-build:'),
-          J('h_poseidon', 'fast5', 6000, 400_000, only='c08.random', wq=16, wt=16, tag='rnd'),
-          J('h_poseidon', 'fast2', 2000, 100_000, only='c08.random', wq=8, wt=16, tag='rnd', class_prefix='avx2-build:')],
+          J('h_poseidon', 'fast5', 6000, 400_000, only='c08.random,c08.sequence', wq=16, wt=16, tag='rnd'),
+          J('h_poseidon', 'fast2', 2000, 100_000, only='c08.random,c08.sequence', wq=8, wt=16, tag='rnd', class_prefix='avx2-build:'),
+          J('h_poseidon', 'ndbg2', 1000, 50_000, only='c08.random', wq=8, wt=16, tag='rndN', class_prefix='ndebug-build:')],
     rule='Enumerated: 8 builders (seq/avx/avx512, batch seq/avx/avx512, both default wrappers) x rows 2^0..2^4 (thorough 2^7) x cols {0,1,3,4,5,8,9,12,13,17,33} (thorough 22 values to 128) x dim {1,2,3} x '
          'batch sizes {1,3,4,cols-1,cols+1,2^20} (thorough 11 values) x nThreads rotated over {0,1,2,3,5,16}; plus rapidcheck-random shapes (rows to 2^8/2^10, cols to 140, batch to 2^40, threads to 33); each case forked. '
          'Oracle: every element of the tree buffer vs the reference tree (row digests by reference sponge; batched leaf = sponge of concatenated per-batch digests; parent = first 4 outputs of perm(left||right||0000)); '
@@ -295,8 +299,8 @@ HARNESSES['h_wrappers'] = dict(src='h_wrappers.cpp', deps=['harness/c17_table.in
 
 PROPS['C17'] = dict(
     title='Strided/offset/broadcast base-field wrappers and bulk copies move the right data',
-    jobs=[J('h_wrappers', 'fast5', 1_600_000, 60_000_000, only='c17.copy,c17.add,c17.sub,c17.mul', wq=16, wt=16, tag='rows'),
-          J('h_wrappers', 'fast2', 400_000, 15_000_000, only='c17.copy,c17.add,c17.sub,c17.mul', wq=8, wt=16, tag='rows', class_prefix='avx2-build:'),
+    jobs=[J('h_wrappers', 'fast5', 1_600_000, 60_000_000, only='c17.copy,c17.add,c17.sub,c17.mul,c17.mixed', wq=16, wt=16, tag='rows'),
+          J('h_wrappers', 'fast2', 400_000, 15_000_000, only='c17.copy,c17.add,c17.sub,c17.mul,c17.mixed', wq=8, wt=16, tag='rows', class_prefix='avx2-build:'),
           J('h_wrappers', 'fast2', 24_000, 1_000_000, only='c17.par', wq=16, wt=16, tag='par')],
     rule='One table row per live overload of copy/add/sub/mul x _batch/_avx/_avx512 (164 rows, derived from the declarations in goldilocks_base_field.hpp by tools/gen_c17.py: operand shapes read off parameter types, order and names; '
          '191 declarations counting the 26 commented-out ones; add_batch(Element*, const Element*, const Element*, const uint64_t[4]) is declared but has no definition anywhere: no body to test). '
@@ -348,7 +352,7 @@ PROPS['C18'] = dict(
         J('h_lanes', 'san5', 60_000, 3_000_000, only='c13,c14', wq=6, wt=16, crash_only=True, class_prefix='matrix:'),
         J('h_cubic', 'san2', 150_000, 5_000_000, wq=4, wt=16, crash_only=True, class_prefix='cubic:'),
         J('h_cubic_batch', 'san5', 160_000, 6_000_000, wq=8, wt=16, crash_only=True, class_prefix='cubic-batch:'),
-        J('h_wrappers', 'san5', 120_000, 6_000_000, only='c17.copy,c17.add,c17.sub,c17.mul', wq=8, wt=16, tag='rows', crash_only=True, class_prefix='wrappers:'),
+        J('h_wrappers', 'san5', 120_000, 6_000_000, only='c17.copy,c17.add,c17.sub,c17.mul,c17.mixed', wq=8, wt=16, tag='rows', crash_only=True, class_prefix='wrappers:'),
         J('h_wrappers', 'san2', 4000, 200_000, only='c17.par', wq=8, wt=16, tag='par', crash_only=True, class_prefix='wrappers:'),
         J('h_scalar2', 'san2', 200_000, 10_000_000, only='c15', wq=4, wt=8, crash_only=True, class_prefix='conversions:'),
         # uninitialised stack reads: pattern-initialised automatic variables must not change any result (oracle = the functional oracles)
@@ -357,7 +361,7 @@ PROPS['C18'] = dict(
         # valgrind memcheck on the AVX2 build (valgrind 3.19 cannot execute AVX512): definedness of every value that reaches a branch or a syscall
         J('h_poseidon', 'fast2', 300, 300, only='c07.random,c06.perm', wq=4, wt=4, tiers=['thorough'], tag='vg', wrap=['valgrind', '-q', '--error-exitcode=99', '--track-origins=no'], crash_only=True, class_prefix='valgrind:poseidon:'),
         J('h_cubic_batch', 'fast2', 2000, 2000, wq=4, wt=4, tiers=['thorough'], tag='vg', wrap=['valgrind', '-q', '--error-exitcode=99'], crash_only=True, class_prefix='valgrind:cubic-batch:'),
-        J('h_wrappers', 'fast2', 2000, 2000, only='c17.copy,c17.add,c17.sub,c17.mul', wq=4, wt=4, tiers=['thorough'], tag='vg', wrap=['valgrind', '-q', '--error-exitcode=99'], crash_only=True, class_prefix='valgrind:wrappers:'),
+        J('h_wrappers', 'fast2', 2000, 2000, only='c17.copy,c17.add,c17.sub,c17.mul,c17.mixed', wq=4, wt=4, tiers=['thorough'], tag='vg', wrap=['valgrind', '-q', '--error-exitcode=99'], crash_only=True, class_prefix='valgrind:wrappers:'),
     ],
     rule='The generators of C03-C09, C13, C14, C16, C17, C19 re-run on AddressSanitizer + UndefinedBehaviorSanitizer builds (-O1, AVX2 and -D__AVX512__ configurations) with EXACT-SIZE heap allocations for every declared extent '
          '(inputs, outputs, scratch buffers, trees, strided arenas end at the last designated cell), so one element past any extent is a report; UBSan covers integer/shift/alignment/VLA-bound UB; alloc-dealloc-mismatch covers the destructors; '
@@ -371,6 +375,10 @@ PROPS['C18'] = dict(
     level_note='Trusted: ASan/UBSan/LSan of g++ 12, valgrind 3.19. In-bounds stray reads that do not change any output are invisible (partly covered by the junk metamorphic relations of C07/C16/C17). Shift UB at n >= 2^31 is unreachable in memory.',
     assumptions=['documented shapes: scratch buffers of size*ncols, trees of getTreeNumElements(rows), power-of-two sizes'],
 )
+CFGS['tsan5'] = dict(cxx='g++', cflags=BASE + ' -O1 -g -mavx2 -mavx512f -D__AVX512__ -fsanitize=thread', ldflags='-pthread -fsanitize=thread', link_src=['engine/ompshim.cpp'],
+                     env={'TSAN_OPTIONS': 'halt_on_error=1:abort_on_error=1:report_signal_unsafe=0'}, needs_avx512=True)
+CFGS['ndbg2'] = dict(cxx='g++', cflags=BASE + ' -O3 -mavx2 -DNDEBUG', ldflags='-fopenmp')   # asserts compiled out (a build users make; nothing may depend on an assert's side effect)
+CFGS['ndbg5'] = dict(cxx='g++', cflags=BASE + ' -O3 -mavx2 -mavx512f -D__AVX512__ -DNDEBUG', ldflags='-fopenmp', needs_avx512=True)
 CFGS['init2'] = dict(cxx='g++', cflags=BASE + ' -O2 -mavx2 -ftrivial-auto-var-init=pattern', ldflags='-fopenmp')
 
 HARNESSES['h_par'] = dict(src='h_par.cpp', deps=['harness/h_ntt.cpp', 'harness/h_poseidon.cpp'])
@@ -453,3 +461,55 @@ PROPS['C17']['rule'] += (' Further call forms (one per case, chosen by the gener
                          'argument is passed as an lvalue living in a designated output cell (only for parameters declared by value); the output extent ends exactly at a guard page; strides >= 2^32 on sparse arenas.')
 PROPS['C17']['expected_classes'] += ['form:both-inputs-one-array(same-pointer)', 'form:output-array-is-first-input(in-place)', 'form:by-value-scalar-lives-in-an-output-cell', 'shape:stride>=2^32']
 
+# ---- concurrent callers (fourth strengthening round): the properties derived by pbt::concurrent_of ("<name>@mt": K = 4 threads inside the routine at once, each with
+# its own operands and outputs) run on the plain build (wrong values) and on a ThreadSanitizer build (any unsynchronised shared access is a report)
+def _mt(harness, fast, tsan, only, q, t, qt=None, tt=None):
+    return [J(harness, fast, q, t, only=only, wq=4, wt=16, args=['--mt'], tag='mt', class_prefix='concurrent:'),
+            J(harness, tsan, qt if qt is not None else max(200, q // 20), tt if tt is not None else max(2000, t // 20), only=only, wq=4, wt=16, args=['--mt'], tag='mt-tsan', class_prefix='concurrent-tsan:')]
+_MT_RULE = (' Concurrent callers: the same generators also run as "<property>@mt": four threads call the routine at the same time, each with its own operands and outputs, six rounds from a common start; every thread checks '
+            'its own results against the oracle (plain build) and ThreadSanitizer watches for unsynchronised shared accesses (hidden static buffers, one-entry caches, lazily built tables).')
+PROPS['C01']['jobs'] += _mt('h_c01', 'fast2', 'tsan2', None, 200_000, 10_000_000)
+PROPS['C02']['jobs'] += _mt('h_lanes', 'fast2', 'tsan2', 'c02', 200_000, 10_000_000)
+PROPS['C11']['jobs'] += _mt('h_lanes', 'fast5', 'tsan5', 'c11', 200_000, 10_000_000)
+PROPS['C13']['jobs'] += _mt('h_lanes', 'fast2', 'tsan2', 'c13', 60_000, 3_000_000)
+PROPS['C14']['jobs'] += _mt('h_lanes', 'fast5', 'tsan5', 'c14', 60_000, 3_000_000)
+PROPS['C06']['jobs'] += _mt('h_poseidon', 'fast5', 'tsan5', 'c06.perm,c06.backsolved,c06.partial', 40_000, 2_000_000)
+PROPS['C07']['jobs'] += _mt('h_poseidon', 'fast5', 'tsan5', 'c07.random', 4_000, 200_000)
+PROPS['C08']['jobs'] += _mt('h_poseidon', 'fast5', 'tsan5', 'c08.random', 1_500, 80_000, qt=300, tt=8_000)
+PROPS['C09']['jobs'] += _mt('h_cubic', 'fast2', 'tsan2', None, 100_000, 5_000_000)
+PROPS['C10']['jobs'] += _mt('h_scalar2', 'fast2', 'tsan2', 'c10', 100_000, 5_000_000)
+PROPS['C15']['jobs'] += _mt('h_scalar2', 'fast2', 'tsan2', 'c15', 200_000, 10_000_000)
+PROPS['C16']['jobs'] += _mt('h_cubic_batch', 'fast5', 'tsan5', None, 100_000, 5_000_000)
+PROPS['C17']['jobs'] += _mt('h_wrappers', 'fast5', 'tsan5', None, 100_000, 5_000_000)
+for _p in ('C01', 'C02', 'C06', 'C07', 'C08', 'C09', 'C10', 'C11', 'C13', 'C14', 'C15', 'C16', 'C17'):
+    PROPS[_p]['rule'] += _MT_RULE
+    PROPS[_p]['expected_classes'] = list(PROPS[_p].get('expected_classes', [])) + ['concurrent:callers:several-threads-inside-the-routine-at-once']
+for _p, _o in (('C03', 'c03.random'), ('C04', 'c04.random'), ('C05', 'c05.random')):
+    PROPS[_p]['jobs'] += _mt('h_ntt', 'fast2', 'tsan2', _o, 1_200, 60_000, qt=200, tt=6_000)
+    PROPS[_p]['rule'] += _MT_RULE
+    PROPS[_p]['expected_classes'] = list(PROPS[_p].get('expected_classes', [])) + ['concurrent:callers:several-threads-inside-the-routine-at-once']
+
+# ---- -DNDEBUG builds (asserts compiled out) for the remaining properties: a tenth of the main random budget each
+def _nd(harness, cfg, only, q, t, **kw):
+    return [J(harness, cfg, q, t, only=only, wq=4, wt=16, tag='ndebug', class_prefix='ndebug-build:', **kw)]
+PROPS['C01']['jobs'] += _nd('h_c01', 'ndbg2', None, 1_000_000, 50_000_000)
+PROPS['C02']['jobs'] += _nd('h_lanes', 'ndbg2', 'c02', 400_000, 20_000_000)
+PROPS['C11']['jobs'] += _nd('h_lanes', 'ndbg5', 'c11', 400_000, 20_000_000)
+PROPS['C13']['jobs'] += _nd('h_lanes', 'ndbg2', 'c13', 100_000, 5_000_000)
+PROPS['C14']['jobs'] += _nd('h_lanes', 'ndbg5', 'c14', 100_000, 5_000_000)
+PROPS['C06']['jobs'] += _nd('h_poseidon', 'ndbg5', 'c06.perm,c06.backsolved,c06.partial', 100_000, 5_000_000)
+PROPS['C07']['jobs'] += _nd('h_poseidon', 'ndbg5', 'c07.lengths', 1, 1, args=['--enumerate', '--level', '0']) + _nd('h_poseidon', 'ndbg2', 'c07.lengths', 1, 1, args=['--enumerate', '--level', '0'])
+PROPS['C09']['jobs'] += _nd('h_cubic', 'ndbg2', None, 300_000, 15_000_000)
+PROPS['C10']['jobs'] += _nd('h_scalar2', 'ndbg2', 'c10', 300_000, 15_000_000)
+PROPS['C15']['jobs'] += _nd('h_scalar2', 'ndbg2', 'c15', 1_000_000, 50_000_000)
+PROPS['C16']['jobs'] += _nd('h_cubic_batch', 'ndbg5', None, 150_000, 8_000_000)
+PROPS['C17']['jobs'] += _nd('h_wrappers', 'ndbg5', None, 150_000, 8_000_000)
+
+# ---- concurrent FIRST use: the same "@mt" properties with every case in a freshly forked child of a parent that has not touched the library
+# (static-initialisation probes switched off): whatever a routine builds lazily on first use is built while several callers are inside it
+def _mtcold(harness, cfg, only, q, t):
+    return [J(harness, cfg, q, t, only=only, wq=8, wt=16, args=['--mt', '--forkall'], env={'PBT_NO_EARLY': '1'}, tag='mt-cold', class_prefix='concurrent-first-use:')]
+PROPS['C01']['jobs'] += _mtcold('h_c01', 'fast2', None, 4_000, 200_000)
+PROPS['C09']['jobs'] += _mtcold('h_cubic', 'fast2', 'c09.op', 4_000, 200_000)
+PROPS['C10']['jobs'] += _mtcold('h_scalar2', 'fast2', 'c10', 8_000, 400_000)
+PROPS['C15']['jobs'] += _mtcold('h_scalar2', 'fast2', 'c15', 4_000, 200_000)
